@@ -918,6 +918,7 @@ def check_c15(tier, seed):
     ctx_extra = ctx_idx[2]
     ctx_empty = calls.conv([], ":")          # a converter without records is still a context: it knows no prefix
     ctx_bar = calls.conv([{"p": "a", "u": "http://e.org/a/", "ps": ["A", "go"], "us": [], "pat": None}], "|", how="ctor")   # its own delimiter is NOT the sep of from_curie
+    ctx_slash = calls.conv([{"p": "a", "u": "http://e.org/a/", "ps": ["A", "go"], "us": [], "pat": None}], "/", how="ctor")
 
     def add_build(cls, p, ident, name, ci):
         ctx = calls.conv_objs[ci - 1] if ci else None
@@ -1039,6 +1040,12 @@ def check_c15(tier, seed):
                     add_validate(cls, p + ":" + ident, 0)
                     add_validate(cls, p + ":" + ident, ctx_idx[k])
                     add_validate(cls, p + ident.replace(":", ""), 0)
+                    # string validation splits at the first ':' -- the PRINTED form -- whatever the context converter's own delimiter is
+                    # (wave 11, C15-w11-M2); also strings that use the converter's delimiter instead, and dictionary input
+                    for cx in (ctx_bar, ctx_slash):
+                        add_validate(cls, p + ":" + ident, cx)
+                        add_validate(cls, p + calls.conv_objs[cx - 1].delimiter + ident, cx)
+                        add_build(cls, p, ident, cm[9], cx)
     n_model = len(calls.calls)
     # random references, the full comparison matrix on small groups, triples files
     ppool = ["", "a", "A", "go", "GO", "ß", "ss", "x.y", "é", "\U0001d4b3", "chebi", "a b", "n1"]
